@@ -505,10 +505,14 @@ class FnAnalysis:
             # the length of a locally built vector, taken where len() is called: the sum of its appends so far
             try:
                 bl_ = self.builder_lin(e.args[0], e.site[0])
+                if bl_ is None:
+                    bl_ = self.site_builder_lin(e, 0, e.site[0])
             except RecursionError:
                 bl_ = None
             if bl_ is not None:
                 return dict(bl_[0]), bl_[1]
+            if self.cn.builder_of(e.site, 0) is not None:
+                return {self.cn.c(e): 1}, 0        # a built vector of unknown length: its creation value says nothing
             try:
                 ll_ = self.length(e.args[0], e.site[0])
             except RecursionError:
@@ -874,8 +878,14 @@ class FnAnalysis:
                     break
         KEEP_LEN = ('other:index_mut', 'other:deref_mut', 'other:as_mut_slice', 'other:iter_mut', 'other:copy_from_slice', 'other:clone_from_slice',
                     'other:fill', 'other:swap', 'other:reverse', 'other:sort', 'other:as_mut', 'other:as_mut_ptr', 'other:last_mut', 'other:first_mut', 'other:get_mut', 'setelem')
+        return self._lin_of_appends(appends(fn, P, L, cb), block, atoms0, const0, depth)
+
+    def _lin_of_appends(self, apps, block, atoms0, const0, depth=0):
+        fn = self.fn
+        KEEP_LEN = ('other:index_mut', 'other:deref_mut', 'other:as_mut_slice', 'other:iter_mut', 'other:copy_from_slice', 'other:clone_from_slice',
+                    'other:fill', 'other:swap', 'other:reverse', 'other:sort', 'other:as_mut', 'other:as_mut_ptr', 'other:last_mut', 'other:first_mut', 'other:get_mut', 'setelem')
         atoms, const = dict(atoms0), const0
-        for a in appends(fn, P, L, cb):
+        for a in apps:
             if a.kind in KEEP_LEN:
                 continue
             before = block in fn.reachable(a.block) and a.block not in fn.reachable(block) if a.block != block else False
@@ -905,6 +915,31 @@ class FnAnalysis:
                 k_ = 'len(%s)' % self.cn.c(a.elem)
                 atoms[k_] = atoms.get(k_, 0) + 1
         return atoms, const
+
+    def site_builder_lin(self, call, argno, block):
+        """linear length, at `block`, of the locally built Vec that argument `argno` of `call` refers to (the Vec may start as
+        vec![..], z.to_vec() or Vec::new()); None when unknown"""
+        if call.site is None:
+            return None
+        bo = self.cn.builder_of(call.site, argno)
+        if bo is None:
+            return None
+        creation, seq = bo
+        cr = strip(creation)
+        atoms0, const0 = {}, 0
+        if cr.k == 'call' and last(cr.name or '') in ('new', 'with_capacity') and 'Vec' in (cr.name or ''):
+            pass
+        else:
+            if cr.k == 'call' and last(cr.name or '') in ('to_vec', 'to_owned', 'into_vec', 'from') and cr.args:
+                cr = strip(cr.args[0])
+            n0 = self.length(cr, call.site[0]) if cr.k != 'param' else (0, INF)
+            if n0[0] == n0[1]:
+                const0 = n0[0]
+            elif cr.k == 'param':
+                atoms0 = {'len(%s)' % self.cn.c(cr): 1}
+            else:
+                return None
+        return self._lin_of_appends(seq, block, atoms0, const0)
 
     # ---------------------------------------------------------------- sites
     def run(self):
@@ -1312,6 +1347,20 @@ class FnAnalysis:
                 s.status, s.reason = 'NEED', 'requires len(%s) == %d' % s.need
                 return
             sa, sc = self.cn.c(args[0]), self.cn.c(args[1])
+            d0 = strip(args[0])
+            if c[0] == c[1] and d0.k == 'call' and last(d0.name) == 'index_mut' and len(d0.args) == 2:
+                # buf[off..].copy_from_slice(src) with off = the builder's length at an earlier point: the tail appended
+                # since then has (length now) - off elements, as linear forms over the same symbolic lengths
+                r0 = strip(d0.args[1])
+                if r0.k == 'aggr' and r0.name == 'RangeFrom::RangeFrom':
+                    try:
+                        now = self.site_builder_lin(d0, 0, b)
+                        off = self.linform(r0.args[0])
+                    except RecursionError:
+                        now = None
+                    if now is not None and now[0] == off[0] and now[1] - off[1] == c[0]:
+                        s.status, s.reason = 'OK', 'dst = buf[len_before..] has exactly the %d elements appended since; src has %d' % (c[0], c[0])
+                        return
             m = re.match(r'^index_mut\(.*, RangeTo::RangeTo\{(.*)\}\)$', sa)
             m3 = re.match(r'^index\(.*, Range::Range\{0, (.*)\}\)$', sc)
             if m and m3 and m.group(1) == m3.group(1):
